@@ -26,25 +26,29 @@ def main():
     ap.add_argument("--tier", default="quick")
     ap.add_argument("--repo", default="/repo")
     ap.add_argument("--keep", action="store_true", help="keep counters of an earlier invocation (accumulate)")
+    ap.add_argument("--variants", default="VG", help="comma list of VG (default configuration), VG2 (futex emulation), VG3 (lazy stacks); a line counts as reached if any of them reached it")
     a = ap.parse_args()
     props = a.props.split(",") if a.props else sorted(propcfg.PROPS)
-    exe = subprocess.check_output([sys.executable, os.path.join(VERIF, "tools", "build.py"), "--variant", "VG", "--repo", a.repo, "--quiet"]).decode().strip()
-    bdir = os.path.dirname(exe)
-    if not a.keep:
-        for f in glob.glob(os.path.join(bdir, "*.gcda")):
-            os.unlink(f)
     t0 = time.time()
     ran = {}
-    for p in props:
-        cmd = [os.path.join(VERIF, "bin", "check"), p, "--variants", "VG", "--runs", str(a.runs), "--budget", str(a.budget), "--no-evidence", "--tier", a.tier, "--repo", a.repo]
-        r = subprocess.run(cmd, stdout=subprocess.PIPE, stderr=subprocess.STDOUT)
-        m = re.search(r"(\d+) runs \((\d+) distinct", r.stdout.decode(errors="replace"))
-        ran[p] = {"runs": int(m.group(1)) if m else 0, "exit": r.returncode}
-        sys.stderr.write("%s: %s\n" % (p, ran[p]))
+    bdirs = []
+    for variant in a.variants.split(","):
+        exe = subprocess.check_output([sys.executable, os.path.join(VERIF, "tools", "build.py"), "--variant", variant, "--repo", a.repo, "--quiet"]).decode().strip()
+        bdir = os.path.dirname(exe)
+        bdirs.append(bdir)
+        if not a.keep:
+            for f in glob.glob(os.path.join(bdir, "*.gcda")):
+                os.unlink(f)
+        for p in props:
+            cmd = [os.path.join(VERIF, "bin", "check"), p, "--variants", variant, "--runs", str(a.runs), "--budget", str(a.budget), "--no-evidence", "--tier", a.tier, "--repo", a.repo]
+            r = subprocess.run(cmd, stdout=subprocess.PIPE, stderr=subprocess.STDOUT)
+            m = re.search(r"(\d+) runs \((\d+) distinct", r.stdout.decode(errors="replace"))
+            ran.setdefault(p, {})[variant] = {"runs": int(m.group(1)) if m else 0, "exit": r.returncode}
+            sys.stderr.write("%s %s: %s\n" % (variant, p, ran[p][variant]))
     # aggregate
     lines = {}   # file -> {line: count}
     funcs = {}   # (file, name) -> [start, end, count]
-    for g in sorted(glob.glob(os.path.join(bdir, "*.gcda"))):
+    for bdir, g in [(b, g) for b in bdirs for g in sorted(glob.glob(os.path.join(b, "*.gcda")))]:
         out = subprocess.run(["gcov", "--json-format", "--stdout", "-o", bdir, g], stdout=subprocess.PIPE, stderr=subprocess.DEVNULL, cwd=bdir).stdout
         for doc in out.decode(errors="replace").splitlines():
             if not doc.startswith("{"):
@@ -53,9 +57,13 @@ def main():
             for f in j.get("files", []):
                 fn = os.path.realpath(os.path.join(bdir, f["file"]))
                 src = os.path.realpath(os.path.join(a.repo, "src"))
-                if not fn.startswith(src + "/"):
+                binc = os.path.realpath(os.path.join(bdir, "include"))
+                if fn.startswith(binc + "/"):
+                    rel = "include/" + fn[len(binc) + 1:]  # variants with an edited abt_config.h compile a copy of the headers
+                elif fn.startswith(src + "/"):
+                    rel = fn[len(src) + 1:]
+                else:
                     continue
-                rel = fn[len(src) + 1:]
                 d = lines.setdefault(rel, {})
                 for l in f["lines"]:
                     d[l["line_number"]] = d.get(l["line_number"], 0) + l["count"]
@@ -87,7 +95,7 @@ def main():
                 unreached.append("%s:%d: [%s] %s" % (rel, ln, fnm, text[ln - 1].strip() if ln - 1 < len(text) else ""))
     fl = [{"file": r, "function": n, "calls": c} for (r, n), (s, e, c) in sorted(funcs.items())]
     never = [f for f in fl if f["calls"] == 0]
-    rep = {"tool": "tools/coverage.py", "variant": "VG (gcc --coverage on libabt only)", "tier": a.tier, "runs_per_property": ran,
+    rep = {"tool": "tools/coverage.py", "variants": a.variants + " (gcc --coverage on libabt only)", "tier": a.tier, "runs_per_property": ran,
            "seconds": round(time.time() - t0, 1), "lines_instrumented": tot, "lines_reached": hit,
            "percent": round(100.0 * hit / max(1, tot), 1), "files": files,
            "functions_total": len(fl), "functions_never_called": never}
